@@ -4,6 +4,8 @@
 //!   eval <hex expr> [<name>=<value>]...     evaluate with a HashMapContext holding the bindings
 //!   evalimm <hex expr> [<name>=<value>]...  same through the read-only entry point
 //!   tree <hex expr>                         build_operator_tree, print the tree (Debug)
+//!   typed <hex expr> [<name>=<value>]...    the seven typed string entry points (mutable context), all results
+//!   iter <hex expr>                         identifier iterators of the built tree, in order
 //! value := int:<i64> | float:<u64 bits> | bool:<0|1> | str:<hex> | empty | tuple:<value>;<value>...
 use evalexpr::*;
 use std::io::BufRead;
@@ -43,6 +45,27 @@ fn main() {
             "eval" => { let mut c = ctx(&f[2..]); let r = eval_with_context_mut(&unhex(f[1]), &mut c); let shown = format!("{:?}", r); let _ = format!("{}", match &r { Ok(v) => v.to_string(), Err(e) => e.to_string() }); format!("{}\t{}", shown, vars(&c)) },
             "evalimm" => { let c = ctx(&f[2..]); let r = eval_with_context(&unhex(f[1]), &c); format!("{:?}\t{}", r, vars(&c)) },
             "tree" => { let r = build_operator_tree::<DefaultNumericTypes>(&unhex(f[1])); match &r { Ok(t) => { let _ = t.to_string(); }, Err(e) => { let _ = e.to_string(); } }; format!("{:?}", r) },
+            "typed" => {
+                let e = unhex(f[1]);
+                let mut out = Vec::new();
+                { let mut c = ctx(&f[2..]); out.push(format!("string={:?} {}", eval_string_with_context_mut(&e, &mut c), vars(&c))); }
+                { let mut c = ctx(&f[2..]); out.push(format!("int={:?} {}", eval_int_with_context_mut(&e, &mut c), vars(&c))); }
+                { let mut c = ctx(&f[2..]); out.push(format!("float={:?} {}", eval_float_with_context_mut(&e, &mut c), vars(&c))); }
+                { let mut c = ctx(&f[2..]); out.push(format!("number={:?} {}", eval_number_with_context_mut(&e, &mut c), vars(&c))); }
+                { let mut c = ctx(&f[2..]); out.push(format!("boolean={:?} {}", eval_boolean_with_context_mut(&e, &mut c), vars(&c))); }
+                { let mut c = ctx(&f[2..]); out.push(format!("tuple={:?} {}", eval_tuple_with_context_mut(&e, &mut c), vars(&c))); }
+                { let mut c = ctx(&f[2..]); out.push(format!("empty={:?} {}", eval_empty_with_context_mut(&e, &mut c), vars(&c))); }
+                { let c = ctx(&f[2..]); out.push(format!("number_imm={:?}", eval_number_with_context(&e, &c))); }
+                { let c = ctx(&f[2..]); out.push(format!("int_imm={:?}", eval_int_with_context(&e, &c))); }
+                out.push(format!("number_fresh={:?} int_fresh={:?} string_fresh={:?}", eval_number(&e), eval_int(&e), eval_string(&e)));
+                out.join(" | ")
+            },
+            "iter" => match build_operator_tree::<DefaultNumericTypes>(&unhex(f[1])) {
+                Ok(t) => format!("ids={:?} vars={:?} fns={:?} read={:?} write={:?} nodes={}",
+                    t.iter_identifiers().collect::<Vec<_>>(), t.iter_variable_identifiers().collect::<Vec<_>>(), t.iter_function_identifiers().collect::<Vec<_>>(),
+                    t.iter_read_variable_identifiers().collect::<Vec<_>>(), t.iter_write_variable_identifiers().collect::<Vec<_>>(), t.iter().count()),
+                Err(e) => format!("{:?}", e),
+            },
             _ => "?".to_string(),
         });
         match r {
